@@ -216,3 +216,28 @@ func HC04_EWKB() {
 		func(g geom.T) ([]byte, error) { return ewkb.Marshal(g, ewkb.XDR) },
 		func(b []byte) (geom.T, error) { return ewkb.Unmarshal(b) })
 }
+
+var _ = register("HC04_Polygon", HC04_Polygon)
+
+// HC04_Polygon: longer inputs for the nested count handling: the first five bytes are fixed to a
+// little-endian XY Polygon (WKB) or Polygon/MultiLineString-free EWKB header, the following L bytes
+// are arbitrary (ring count, per-ring point counts, ordinates, truncation anywhere).
+func HC04_Polygon() {
+	L := sym.Pick(40, 56)
+	sym.Bound("input bytes after the 5-byte header", L)
+	lim := setLimits(true)
+	body := symBytes("b", L)
+	data := append([]byte{1, 3, 0, 0, 0}, body...)
+	isEWKB := sym.Flip("ewkb")
+	if isEWKB {
+		g, err := ewkb.Unmarshal(data)
+		checkDecoded(g, err, lim,
+			func(g geom.T) ([]byte, error) { return ewkb.Marshal(g, ewkb.NDR) },
+			func(b []byte) (geom.T, error) { return ewkb.Unmarshal(b) })
+		return
+	}
+	g, err := wkb.Unmarshal(data)
+	checkDecoded(g, err, lim,
+		func(g geom.T) ([]byte, error) { return wkb.Marshal(g, wkb.NDR) },
+		func(b []byte) (geom.T, error) { return wkb.Unmarshal(b) })
+}
